@@ -490,6 +490,10 @@ class Engine:
                         if loc not in st.locs:
                             st.locs[loc] = Arr(t["to"], tuple(int_const(x, 8, False) for x in data))
                         return Ref(loc, (), False)
+                if kind == "array" and len(data) <= 32:
+                    et = T.t(t["of"]) if "of" in t else None
+                    if et and et["k"] == "uint" and et["bits"] == 8:
+                        return Arr(ti, tuple(int_const(x, 8, False) for x in data))
                 return Top(ti, base)
         if "zst" in k:
             if kind == "tuple":
